@@ -12,6 +12,7 @@ import (
 	"net"
 	"net/http"
 	"net/http/httptest"
+	"net/url"
 	"strconv"
 	"strings"
 	"sync"
@@ -48,6 +49,7 @@ type rdCase struct {
 	Entry  string   `json:"entry"`  // api | header | withauth
 	Access string   `json:"access"` // none | basic
 	Creds  bool     `json:"creds"`  // the helper can fill
+	Source string   `json:"source"` // "" = credential helper only; "userinfo" = the LFS URL carries user:password (helper refuses)
 }
 
 type rdSeen struct {
@@ -206,6 +208,9 @@ func (cs *rdCase) encode() string {
 	if cs.Creds {
 		cr = "1"
 	}
+	if cs.Source == "userinfo" {
+		cr = "u"
+	}
 	return fmt.Sprintf("C10 run %s %s %s %s", cs.Entry, cs.Access, cr, strings.Join(ns, ","))
 }
 func orDash(s string) string {
@@ -220,6 +225,9 @@ func decodeRdCase(s string) (*rdCase, bool) {
 		return nil, false
 	}
 	cs := &rdCase{Entry: f[2], Access: f[3], Creds: f[4] == "1"}
+	if f[4] == "u" {
+		cs.Source = "userinfo"
+	}
 	for _, ns := range strings.Split(f[5], ",") {
 		p := strings.Split(ns, ":")
 		if len(p) != 6 {
@@ -260,19 +268,27 @@ func (w *rdWorld) runCase(cs *rdCase) (trace []rdSeen, fills []string, errText s
 	w.mu.Unlock()
 	start := cs.Nodes[0]
 	apiURL := w.url(start.L, cs.ID, 0, "")
+	cfgURL := apiURL
+	if cs.Source == "userinfo" {
+		// the LFS URL itself carries credentials: they belong to the API's own place
+		u, _ := url.Parse(apiURL)
+		u.User = url.UserPassword("u|"+strings.ReplaceAll(w.label(start.L), ":", "~"), "pw")
+		cfgURL = u.String()
+	}
 	git := map[string][]string{
-		"lfs.url":        {apiURL},
+		"lfs.url":        {cfgURL},
 		"http.sslverify": {"false"},
 	}
 	if cs.Access == "basic" {
 		git["lfs."+apiURL+".access"] = []string{"basic"}
+		git["lfs."+cfgURL+".access"] = []string{"basic"}
 	}
 	cfg := config.NewFrom(config.Values{Git: git})
 	client, err := lfsapi.NewClient(cfg)
 	if err != nil {
 		return nil, nil, "client: " + err.Error(), false
 	}
-	helper := &rdHelper{can: cs.Creds}
+	helper := &rdHelper{can: cs.Creds && cs.Source != "userinfo"}
 	client.Credentials = helper
 	done := make(chan string, 1)
 	go func() {
@@ -285,7 +301,7 @@ func (w *rdWorld) runCase(cs *rdCase) (trace []rdSeen, fills []string, errText s
 		var err error
 		switch cs.Entry {
 		case "api":
-			req, rerr := client.NewRequest("POST", lfshttp.Endpoint{Url: apiURL}, "objects/batch", map[string]string{"operation": "download"})
+			req, rerr := client.NewRequest("POST", lfshttp.Endpoint{Url: cfgURL}, "objects/batch", map[string]string{"operation": "download"})
 			if rerr != nil {
 				done <- "newrequest: " + rerr.Error()
 				return
@@ -298,7 +314,7 @@ func (w *rdWorld) runCase(cs *rdCase) (trace []rdSeen, fills []string, errText s
 			res, err = client.Do(req)
 		default:
 			req, _ := http.NewRequest("GET", apiURL+"/obj", nil)
-			res, err = client.DoWithAuth("origin", client.Endpoints.AccessFor(apiURL), req)
+			res, err = client.DoWithAuth("origin", client.Endpoints.AccessFor(cfgURL), req)
 		}
 		if res != nil && res.Body != nil {
 			res.Body.Close()
@@ -401,6 +417,9 @@ func c10(c *Ctx) {
 	nl := len(w.ls)
 	for i := 0; i < n; i++ {
 		cs := &rdCase{Entry: Pick(r, []string{"api", "api", "header", "withauth"}), Access: Pick(r, []string{"none", "basic", "basic"}), Creds: r.Chance(80)}
+		if cs.Entry != "header" && r.Chance(30) {
+			cs.Source = "userinfo"
+		}
 		depth := Pick(r, []int{0, 1, 1, 1, 2, 2, 2, 3, 4})
 		if r.Chance(8) {
 			depth = 5 + r.Intn(3)
